@@ -31,7 +31,7 @@ NUM_DTYPES = {
 }
 NARROWER = {"int16": "int8", "int32": "int16", "int64": "int32", "uint16": "uint8", "uint32": "uint16",
             "uint64": "uint32", "float32": "float16", "float64": "float32"}
-PRESENTATIONS = ["C", "F", "strided", "big", "little", "narrow", "npscalar", "pylist", "reused"]
+PRESENTATIONS = ["C", "F", "strided", "big", "little", "narrow", "npscalar", "pylist", "reused", "aliased"]
 
 
 def battery(dtype: str, n: int, rng: np.random.Generator) -> np.ndarray:
@@ -75,7 +75,7 @@ def present(values: np.ndarray, shape, how: str, declared: str):
         return a.astype(a.dtype.newbyteorder(">"))
     if how == "little":
         return a.astype(a.dtype.newbyteorder("<"))
-    if how == "narrow":
+    if how in ("narrow", "aliased"):
         return np.ascontiguousarray(a)
     if how == "npscalar":
         return a.dtype.type(a.reshape(-1)[0])
@@ -134,7 +134,10 @@ def run_cells(task: dict) -> dict:
                     src_dtype = NARROWER.get(dtype) if how == "narrow" else dtype
                     if src_dtype is None:
                         continue
+                    if how == "aliased" and not (np.dtype(dtype).kind in "iu" and np.dtype(dtype).itemsize > 1):
+                        continue    # (integers only: byte-swapped floats are mostly NaN patterns)
                     reuse = {}
+                    alias_prev = {}
                     for variant in range(task["variants"]):
                         vals, exp = {}, []
                         ok = True
@@ -147,6 +150,14 @@ def run_cells(task: dict) -> dict:
                             v = battery(src_dtype, n + variant * 3, rng)[variant * 3:][:n]
                             if len(v) < n:
                                 v = np.resize(v, n)
+                            if how == "aliased":
+                                # consecutive examples of one shard whose MEMORY is byte for byte the same but whose
+                                # values differ: the second is the first one's buffer declared in the other byte order
+                                if variant % 2 == 1 and i in alias_prev:
+                                    v = alias_prev[i].view(alias_prev[i].dtype.newbyteorder())
+                                else:
+                                    v = np.ascontiguousarray(v)
+                                    alias_prev[i] = v
                             if how == "pylist" and v.dtype.kind == "f":
                                 # a Python list goes through Python floats (double): NaN payloads combined with a
                                 # widening cast are outside the statement
